@@ -19,6 +19,7 @@ import (
 	"regexp/syntax"
 
 	"slices"
+	"unicode"
 
 	"github.com/sourcegraph/zoekt/internal/syntaxutil"
 )
@@ -45,6 +46,34 @@ func LowerRegexp(r *syntax.Regexp) *syntax.Regexp {
 	}
 
 	return &newRE
+}
+
+// regexpHasUpper reports whether the pattern asks for an upper-case letter: a
+// literal contains one, or a character class names one (as a range bound)
+// without also containing its lower-case counterpart (\w, [a-zA-Z] do not
+// count).
+func regexpHasUpper(r *syntax.Regexp) bool {
+	switch r.Op {
+	case syntax.OpLiteral:
+		return slices.ContainsFunc(r.Rune, unicode.IsUpper)
+	case syntax.OpCharClass:
+		in := func(c rune) bool {
+			for i := 0; i+1 < len(r.Rune); i += 2 {
+				if r.Rune[i] <= c && c <= r.Rune[i+1] {
+					return true
+				}
+			}
+			return false
+		}
+		negated := len(r.Rune) >= 2 && r.Rune[0] == 0 && r.Rune[len(r.Rune)-1] == unicode.MaxRune
+		for _, c := range r.Rune {
+			if unicode.IsUpper(c) && (negated || !in(unicode.ToLower(c))) {
+				return true
+			}
+		}
+		return false
+	}
+	return slices.ContainsFunc(r.Sub, regexpHasUpper)
 }
 
 // OptimizeRegexp converts capturing groups to non-capturing groups.
